@@ -78,6 +78,14 @@ impl SegmentIndexWriter {
                     format!("Failed to write index to file: {}. {error}", self.file_path)
                 })
                 .map_err(|_| IggyError::CannotSaveIndexToSegment)?;
+            // Wait until the buffered entry has reached the file before its size is published.
+            self.file
+                .flush()
+                .await
+                .with_error_context(|error| {
+                    format!("Failed to flush index file: {}. {error}", self.file_path)
+                })
+                .map_err(|_| IggyError::CannotSaveIndexToSegment)?;
         }
         if self.fsync {
             let _ = self.fsync().await;
